@@ -2843,7 +2843,7 @@ class Entity(MutableMapping[str, str]):
 
             buffer.write(f'{ind}\t\t"visgroupshown" "{srctools.bool_as_int(self.vis_shown)}"\n')
             buffer.write(f'{ind}\t\t"visgroupautoshown" "{srctools.bool_as_int(self.vis_auto_shown)}"\n')
-            buffer.write(f'{ind}\t\t"logicalpos" "{self.logical_pos}"\n')
+            buffer.write(f'{ind}\t\t"logicalpos" "{escape_text(self.logical_pos)}"\n')
 
         if self.comments:
             buffer.write(f'{ind}\t\t"comments" "{escape_text(self.comments)}"\n')
@@ -3349,7 +3349,7 @@ class EntityFixup(MutableMapping[str, str]):
         for fixup in sorted(self._fixup.values(), key=operator.attrgetter('id')):
             # When exporting, pad the index with zeros if necessary
             buffer.write(
-                f'{ind}\t"replace{fixup.id:02}" "${fixup.var} {escape_text(fixup.value)}"\n'
+                f'{ind}\t"replace{fixup.id:02}" "${escape_text(fixup.var)} {escape_text(fixup.value)}"\n'
             )
 
     def __str__(self) -> str:
